@@ -85,6 +85,41 @@ def extract(repo):
     j = tail.find(");")          # end of parser.report(...)
     after_report = tail[j + 2:] if j >= 0 else ""
     facts["blockElseConsumes"] = bool(re.match(r"\s*associated_comments\.extend\(parser\.consume\(\)\);", after_report))
+    # 4. class-member loop: `while let Keyword(Function | Method | Private) = peek { parse member }`;
+    #    the member parser consumes the keyword it was dispatched on
+    cls = fn_body(src, "pub(super) fn parse_class(", "parse_class")
+    if not re.search(r"while let TokenContent::Keyword\(Keyword::Function \| Keyword::Method \| Keyword::Private\) =\s*parser\.peek\(\)\.1\s*\{[^}]*parse_class_member_definition\(parser\)", cls, re.S):
+        raise Shape("parse_class: the member loop `while let Keyword(Function|Method|Private) = peek { parse_class_member_definition }` is gone")
+    mem = fn_body(src, "fn parse_class_member_declaration_common(", "parse_class_member_declaration_common")
+    priv = block_after(mem, "if let Token(peeked_loc, TokenContent::Keyword(Keyword::Private)) = peeked", "member `private` arm")
+    fun = block_after(mem, "if let Token(_, TokenContent::Keyword(Keyword::Function)) = &peeked", "member `function` arm")
+    facts["memberConsumesKeyword"] = ("parser.consume()" in priv and "parser.consume()" in fun
+                                      and "parser.assert_and_consume_keyword(Keyword::Method)" in mem)
+    # 5. match-arm loop: `while matches!(peek, `{` | `(` | `_` | LowerId | UpperId) { pattern -> expr }`;
+    #    the pattern parser consumes each of these start tokens
+    mt = fn_body(src, "fn parse_match(parser: &mut super::SourceParser)", "parse_match")
+    m = re.search(r"while matches!\(\s*parser\.peek\(\)\.1,(.*?)\)\s*\{\s*matching_list\.push\(parse_pattern_to_expression\(parser\)\);", mt, re.S)
+    if not m:
+        raise Shape("parse_match: the arm loop `while matches!(peek, ..) { parse_pattern_to_expression }` is gone")
+    starts = set(re.findall(r"TokenOp::(\w+)|TokenContent::(LowerId|UpperId)", m.group(1)))
+    starts = {a or b for a, b in starts}
+    if starts != {"LeftBrace", "LeftParenthesis", "Underscore", "LowerId", "UpperId"}:
+        raise Shape(f"parse_match: arm loop start set changed: {sorted(starts)}")
+    p2e = fn_body(src, "fn parse_pattern_to_expression(", "parse_pattern_to_expression")
+    if not re.match(r"\s*let pattern = super::pattern_parser::parse_matching_pattern\(parser, Vec::new\(\)\);", p2e):
+        raise Shape("parse_pattern_to_expression no longer starts with parse_matching_pattern")
+    single = fn_body(src, "fn parse_single_matching_pattern(", "parse_single_matching_pattern")
+    tup = fn_body(src, "fn parse_tuple_pattern(parser: &mut super::SourceParser)", "parse_tuple_pattern")
+    ok = bool(re.match(r"\s*let \(start_loc, starting_comments\) =\s*parser\.assert_and_consume_operator\(TokenOp::LeftParenthesis\);", tup))
+    ok = ok and "let mut p = parse_tuple_pattern(parser);" in block_after(single, "if let Token(_, TokenContent::Operator(TokenOp::LeftParenthesis)) = peeked", "pattern `(` arm")
+    for anchor in ["if let Token(peeked_loc, TokenContent::Operator(TokenOp::LeftBrace)) = peeked",
+                   "if let Token(peeked_loc, TokenContent::UpperId(id)) = peeked",
+                   "if let Token(location, TokenContent::Operator(TokenOp::Underscore)) = peeked"]:
+        arm = block_after(single, anchor, "pattern arm " + anchor)
+        ok = ok and bool(re.match(r"\s*starting_comments\.append\(&mut parser\.consume\(\)\);", arm))
+    # the fall-through arm is the lower-id pattern
+    ok = ok and ("parser.assert_and_peek_lower_id()" in single or "parser.parse_lower_id" in single)
+    facts["matchArmConsumesStart"] = ok
     return facts
 
 
